@@ -30,7 +30,8 @@ CONSTANTS CliInit,      \* version the client starts with
           Faults        \* TRUE: the transport may fail while a response is outstanding (ConnLost)
 NoneV == 9
 \* payload items: <<kind, key, val>>; kind = minimum protocol version (0 origin, 1 router key, 2 ASPA)
-Items == { <<0, "o4", 0>>, <<0, "o6", 0>>, <<1, "k1", 0>>, <<2, "c1", 1>>, <<2, "c1", 2>> }
+\* (an announced ASPA may have an empty provider set: <<2, "c1", 0>>; on the wire it differs from a withdrawal by the flag only)
+Items == { <<0, "o4", 0>>, <<0, "o6", 0>>, <<1, "k1", 0>>, <<2, "c1", 0>>, <<2, "c1", 1>>, <<2, "c1", 2>> }
 MinVer(it) == it[1]
 KeyOf(it) == <<it[1], it[2]>>
 WellFormed(d) == \A x, y \in d : (x[1] = 2 /\ KeyOf(x) = KeyOf(y)) => x = y      \* one ASPA per customer
